@@ -1,11 +1,12 @@
 (* C03 - property theorems only (NIfTI round trip preserves data and geometry, or refuses).
    The model is NV.C03.Model; the literal tables (TIME_LIKE_*, XFORM2SPACE, spaces,
    file extensions) are Generated/NiftiTables.v, regenerated from the source on every run.
-   nibabel.io_orientation is the oracle `O`; every theorem holds for EVERY value of it. *)
+   nibabel.io_orientation is the oracle `O` and np.argsort on the orientation keys (tie rule) the
+   oracle `S`; every theorem holds for EVERY value of both. *)
 From Coq Require Import String Ascii.
 From Coq Require Import List Arith Bool ZArith QArith Qabs Lia.
 From NV.Generated Require Import NiftiTables.
-From NV.C03 Require Import Model Exec Proofs Proofs2.
+From NV.C03 Require Import Model Exec Proofs Proofs2 Proofs3.
 Import ListNotations.
 Close Scope Q_scope.
 Open Scope string_scope.
@@ -55,13 +56,13 @@ Print Assumptions roll_moves_data_shape_and_pixdim_alike.
    when there is no time-like axis or it already was axis 3; `roll_axes` otherwise).
    `im` is the image after as_xyz_image; (4) ties it to the caller's image. *)
 Theorem roundtrip_geometry :
-  forall V strict fix0 O (im0 : img V) h,
-    nipy2nifti V strict fix0 O im0 = Ok h ->
-    exists im, as_xyz V strict O im0 = Ok im /\
+  forall V strict fix0 O S (im0 : img V) h,
+    nipy2nifti V strict fix0 O S im0 = Ok h ->
+    exists im, as_xyz V strict O S im0 = Ok im /\
       (wf_img V im -> exists r, nifti2nipy V h = Ok r /\ back_ok V strict fix0 O im r).
 Proof.
-  intros V strict fix0 O im0 h H. unfold nipy2nifti in H.
-  destruct (as_xyz V strict O im0) as [im|e] eqn:Ea; cbn [bind] in H; [|discriminate H].
+  intros V strict fix0 O S im0 h H. unfold nipy2nifti in H.
+  destruct (as_xyz V strict O S im0) as [im|e] eqn:Ea; cbn [bind] in H; [|discriminate H].
   exists im. split; [reflexivity|]. intros Hwf. now apply roundtrip_xyz.
 Qed.
 Print Assumptions roundtrip_geometry.
@@ -70,8 +71,8 @@ Print Assumptions roundtrip_geometry.
    reindexed by `order` (names, rows and translations together) and then its array axes reindexed
    by `desired` (names, columns, shape together; data transposed by the same `desired`). *)
 Theorem as_xyz_is_explicit_reordering :
-  forall V strict O (im0 im : img V),
-    as_xyz V strict O im0 = Ok im ->
+  forall V strict O S (im0 im : img V),
+    as_xyz V strict O S im0 = Ok im ->
     im = im0 \/
     exists order desired,
       xyz_order strict (outn im0) = Some order /\
@@ -81,7 +82,7 @@ Theorem as_xyz_is_explicit_reordering :
       inn im = sel "" desired (inn im0) /\ shp im = sel 0 desired (shp im0) /\
       forall idx, dat im idx = dat im0 (scatter desired idx).
 Proof.
-  intros V strict O im0 im H. unfold as_xyz in H.
+  intros V strict O S im0 im H. unfold as_xyz in H.
   destruct (xyz_affine V strict O im0) as [xa|]; [inversion H; now left|].
   destruct (xyz_order strict (outn im0)) as [order|] eqn:Eo; [|discriminate H].
   match type of H with (if ?c then _ else _) = _ => destruct c; [discriminate H|] end.
@@ -97,9 +98,9 @@ Print Assumptions as_xyz_is_explicit_reordering.
    no time-like one: more than 7 NIfTI dimensions), contradictory time-like axes, a time offset with
    no matching output axis - is refused. *)
 Theorem refuses_inexpressible :
-  forall V strict fix0 O (im0 : img V) h,
-    nipy2nifti V strict fix0 O im0 = Ok h ->
-    exists im, as_xyz V strict O im0 = Ok im /\
+  forall V strict fix0 O S (im0 : img V) h,
+    nipy2nifti V strict fix0 O S im0 = Ok h ->
+    exists im, as_xyz V strict O S im0 = Ok im /\
       space_orthogonal (lin im) = true /\
       ns_orthogonal (lin im) (length (inn im) - 3) = true /\
       (exists xa label, xyz_affine V strict O im = Some xa
@@ -109,8 +110,8 @@ Theorem refuses_inexpressible :
          exists tl, find_time_like V fix0 O im = Ok tl /\ (tl = None -> length (inn im) - 3 <> full_ns)
                     /\ (forall i o name, tl = Some (i, o, name) -> exists toff, toff_rule V im o name = Ok toff)).
 Proof.
-  intros V strict fix0 O im0 h H. unfold nipy2nifti in H.
-  destruct (as_xyz V strict O im0) as [im|e] eqn:Ea; cbn [bind] in H; [|discriminate H].
+  intros V strict fix0 O S im0 h H. unfold nipy2nifti in H.
+  destruct (as_xyz V strict O S im0) as [im|e] eqn:Ea; cbn [bind] in H; [|discriminate H].
   exists im. split; [reflexivity|]. now apply (accepted_is_expressible V strict fix0 O im h).
 Qed.
 Print Assumptions refuses_inexpressible.
@@ -130,12 +131,12 @@ Print Assumptions refuses_nonspace_coupled.
 
 (* strict mode does not accept plain x, y, z (any affine, any oracle) *)
 Theorem strict_refuses_plain_xyz :
-  forall V fix0 O i L t s d m rest,
+  forall V fix0 O S i L t s d m rest,
     (forall nm, In nm rest -> name2xyz true nm = None) -> length rest <= 3 ->
-    nipy2nifti V true fix0 O {| inn := i; outn := plain_xyz ++ rest; lin := L; trn := t; shp := s; dat := d;
+    nipy2nifti V true fix0 O S {| inn := i; outn := plain_xyz ++ rest; lin := L; trn := t; shp := s; dat := d;
                                 meta_toffset := m |} = Err EReorder.
 Proof.
-  intros V fix0 O i L t s d m rest Hr Hl.
+  intros V fix0 O S i L t s d m rest Hr Hl.
   assert (E : xyz_order true (plain_xyz ++ rest) = None).
   { unfold xyz_order, axvals. simpl app. simpl length.
     destruct rest as [|a [|b [|c [|e r]]]]; simpl in Hl; try lia; cbn [axvals_from];
@@ -156,7 +157,7 @@ Definition diag4 : list (list Q) := [[2; 0; 0; 0]; [0; 3; 0; 0]; [0; 0; 4; 0]; [
    time-like coordinate including its offset") *)
 Theorem timelike_offset_preserved_refuted :
   exists (im : img Z) h r,
-    nipy2nifti Z true true (id_oracle 4) im = Ok h /\ nifti2nipy Z h = Ok r /\
+    nipy2nifti Z true true (id_oracle 4) argsort im = Ok h /\ nifti2nipy Z h = Ok r /\
     nth 3 (outn im) "" = "hz" /\ nth 3 (outn r) "" = "hz" /\
     nth 3 (trn im) 0%Q = 7%Q /\ nth 3 (trn r) 0%Q = 0%Q.
 Proof.
@@ -172,16 +173,16 @@ Print Assumptions timelike_offset_preserved_refuted.
 Definition with_meta {V} (m : Q) (im : img V) : img V :=
   {| inn := inn im; outn := outn im; lin := lin im; trn := trn im; shp := shp im; dat := dat im; meta_toffset := m |}.
 Theorem stale_header_toffset_ignored :
-  forall V strict fix0 O (im : img V) m,
-    nipy2nifti V strict fix0 O (with_meta m im) = nipy2nifti V strict fix0 O im.
+  forall V strict fix0 O S (im : img V) m,
+    nipy2nifti V strict fix0 O S (with_meta m im) = nipy2nifti V strict fix0 O S im.
 Proof.
-  intros V strict fix0 O im m. unfold nipy2nifti.
+  intros V strict fix0 O S im m. unfold nipy2nifti.
   assert (Hx : forall im', nipy2nifti_xyz V strict fix0 O (with_meta m im') = nipy2nifti_xyz V strict fix0 O im')
     by (intros [i o L t s d m0]; reflexivity).
   assert (Hxa : forall im', xyz_affine V strict O (with_meta m im') = xyz_affine V strict O im')
     by (intros [i o L t s d m0]; reflexivity).
-  assert (Ha : as_xyz V strict O (with_meta m im)
-               = match as_xyz V strict O im with Ok r => Ok (with_meta m r) | Err e => Err e end).
+  assert (Ha : as_xyz V strict O S (with_meta m im)
+               = match as_xyz V strict O S im with Ok r => Ok (with_meta m r) | Err e => Err e end).
   { unfold as_xyz. rewrite Hxa. destruct (xyz_affine V strict O im); [reflexivity|].
     change (outn (with_meta m im)) with (outn im).
     destruct (xyz_order strict (outn im)) as [order|]; [|reflexivity]. cbv zeta.
@@ -191,7 +192,7 @@ Proof.
       change (reorder_axes V d (reorder_ref V order (with_meta m im)))
         with (with_meta m (reorder_axes V d (reorder_ref V order im))) end.
     rewrite Hxa. now destruct (xyz_affine V strict O _). }
-  rewrite Ha. destruct (as_xyz V strict O im) as [r|e]; cbn [bind]; [apply Hx|reflexivity].
+  rewrite Ha. destruct (as_xyz V strict O S im) as [r|e]; cbn [bind]; [apply Hx|reflexivity].
 Qed.
 Print Assumptions stale_header_toffset_ignored.
 
@@ -211,13 +212,13 @@ Print Assumptions time_offset_preserved.
 (* every refusal is a NiftiError kind (or the model's "outside" marker): no input leads to a
    Python TypeError any more *)
 Theorem converts_or_refuses :
-  forall V strict fix0 O (im : img V) e,
-    nipy2nifti V strict fix0 O im = Err e ->
+  forall V strict fix0 O S (im : img V) e,
+    nipy2nifti V strict fix0 O S im = Err e ->
     In e [EReorder; ESpaceCoupled; ENsCoupled; EWorld; EUnknownAffine; ETooMany; ETimeMismatch; ETimeCross;
           EToffset; EOutside].
 Proof.
-  intros V strict fix0 O im e H. unfold nipy2nifti in H.
-  destruct (as_xyz V strict O im) as [im'|e1] eqn:Ea; cbn [bind] in H.
+  intros V strict fix0 O S im e H. unfold nipy2nifti in H.
+  destruct (as_xyz V strict O S im) as [im'|e1] eqn:Ea; cbn [bind] in H.
   - right. now apply (n2n_xyz_errors V strict fix0 O im').
   - inversion H; subst. left. unfold as_xyz in Ea.
     destruct (xyz_affine V strict O im); [discriminate Ea|].
@@ -230,28 +231,40 @@ Print Assumptions converts_or_refuses.
 (* the former crash witness (input axis 't', output 'q', zero TR, fix0 off) is now converted, TR 0 *)
 Example zero_tr_unmatched_input_t_converts :
   exists h,
-    nipy2nifti Z true false (fun _ => [Some 0; Some 1; Some 2; None])
+    nipy2nifti Z true false (fun _ => [Some 0; Some 1; Some 2; None]) argsort
       (mk_img ["i"; "j"; "k"; "t"] (mni4 "q") [[2; 0; 0; 0]; [0; 3; 0; 0]; [0; 0; 4; 0]; [0; 0; 0; 0]]%Q
               [0; 0; 0; 0]%Q [2; 2; 2; 2] 0%Q) = Ok h
     /\ h_pixdim h = [0%Q] /\ h_tunits h = "sec" /\ h_toffset h = 0%Q /\ h_shape h = [2; 2; 2; 2].
 Proof. eexists. repeat split; vm_compute; reflexivity. Qed.
 Print Assumptions zero_tr_unmatched_input_t_converts.
 
-(* (7) files._type_from_filename on the documented names (any other case is covered by the
-   correspondence; the general statement over all stems is not proved: _partial) *)
-Example type_from_filename_spec_partial :
-  map type_from_filename ["test.nii"; "test"; "test.nii.gz"; "test.hdr"; "test.hdr.gz"; "test.img"; "test.img.gz";
-                          "test.mnc"; "a.b/c"; "x.foo"; "x.nii.bz2"]
-  = [Some "nifti1single"; Some "nifti1single"; Some "nifti1single"; Some "nifti1pair"; Some "nifti1pair";
-     Some "analyze"; Some "analyze"; Some "minc"; Some "nifti1single"; None; Some "nifti1single"].
-Proof. vm_compute. reflexivity. Qed.
-Print Assumptions type_from_filename_spec_partial.
+(* (7) files._type_from_filename: for EVERY non-empty stem without '.' and '/', each documented
+   extension, alone or followed by .gz / .bz2, gives the type of the generated extension table, and
+   the stem alone (or with just a compression suffix) is a single-file NIfTI. *)
+Theorem type_from_filename_spec :
+  forall stem, stem <> [] -> Forall plain_char stem ->
+  forall comp, In comp [""; ".gz"; ".bz2"] ->
+    type_from_filename (fname stem "" comp) = Some "nifti1single"
+    /\ forall ext, In ext [".nii"; ".hdr"; ".img"; ".mnc"] ->
+         type_from_filename (fname stem ext comp) = assoc ext ext_types.
+Proof. exact type_from_filename_general. Qed.
+Print Assumptions type_from_filename_spec.
+
+(* the documented table itself (generated from the source) and some names outside the theorem *)
+Example type_from_filename_documented :
+  map (fun e => assoc e ext_types) [".nii"; ".hdr"; ".img"; ".mnc"]
+  = [Some "nifti1single"; Some "nifti1pair"; Some "analyze"; Some "minc"]
+  /\ map type_from_filename ["test.nii"; "test"; "test.hdr.gz"; "test.img.gz"; "a.b/c"; "x.foo"; ".nii"; "x.nii.bz2"]
+     = [Some "nifti1single"; Some "nifti1single"; Some "nifti1pair"; Some "analyze"; Some "nifti1single"; None;
+        Some "nifti1single"; Some "nifti1single"].
+Proof. vm_compute. split; reflexivity. Qed.
+Print Assumptions type_from_filename_documented.
 
 (* (8) non-vacuity: a 5-D image with axes (u-axis, t-axis) in that order and permuted spatial
    axes is accepted; time comes back as axis 3 with zoom 6 and offset 7, u with zoom 5 *)
 Example roundtrip_nonvacuous :
   exists h r,
-    nipy2nifti Z true true (id_oracle 5)
+    nipy2nifti Z true true (id_oracle 5) argsort
       (mk_img ["i"; "j"; "k"; "u"; "t"] ["mni-x=L->R"; "mni-y=P->A"; "mni-z=I->S"; "u"; "t"]
               [[2; 0; 0; 0; 0]; [0; 3; 0; 0; 0]; [0; 0; 4; 0; 0]; [0; 0; 0; 5; 0]; [0; 0; 0; 0; 6]]%Q
               [0; 0; 0; 0; 7]%Q [2; 2; 2; 3; 2] 0%Q) = Ok h
